@@ -173,6 +173,10 @@ impl Eng {
         self.calls += 1;
         conv(catch_unwind(AssertUnwindSafe(|| self.e.event_job_cleanup_done(id))))
     }
+    pub fn reconsider_all(&mut self) -> CallRes {
+        self.calls += 1;
+        conv(catch_unwind(AssertUnwindSafe(|| self.e.reconsider_all_jobs())))
+    }
     pub fn abort(&mut self) -> CallRes {
         self.calls += 1;
         conv(catch_unwind(AssertUnwindSafe(|| self.e.abort_remaining())))
@@ -399,6 +403,7 @@ pub fn evaluate(sc_cfg: &Config, defs: &[Def], world: &mut World, plan: &EvalPla
         h_in: &h_in,
         shared: shared.clone(),
         tmp: BTreeMap::new(),
+        reconsidered_at: BTreeSet::new(),
         running: Vec::new(),
         ready_prev: BTreeSet::new(),
         offered_ever: BTreeSet::new(),
@@ -444,6 +449,23 @@ pub fn evaluate(sc_cfg: &Config, defs: &[Def], world: &mut World, plan: &EvalPla
         }
         if st.fatal {
             break;
+        }
+        // spurious reconsideration: a legal, public call (kept by runner.py as a debugging aid). It may
+        // bring a lazily deferred decision forward (counted), every monitor keeps running after it
+        if plan.reconsider.contains(&st.action_idx) && !st.reconsidered_at.contains(&st.action_idx) {
+            st.reconsidered_at.insert(st.action_idx);
+            let before = (eng.snapshot(), eng.ready(), eng.cleanup());
+            let r = eng.reconsider_all();
+            probe(&mut out.probes, "reconsider_all_jobs_called");
+            st.legal_result(&mut out, "reconsider_all_jobs", &r);
+            if st.fatal {
+                break;
+            }
+            let after = (eng.snapshot(), eng.ready(), eng.cleanup());
+            if before != after {
+                probe(&mut out.probes, "reconsider_all_jobs_changed_state");
+            }
+            st.observe(&mut eng, &mut out);
         }
         let fin = match eng.is_finished() {
             Ok(b) => b,
@@ -771,6 +793,7 @@ struct DriverState<'a> {
     h_in: &'a BTreeMap<String, String>,
     shared: Rc<Shared>,
     tmp: BTreeMap<String, u64>,
+    reconsidered_at: BTreeSet<u32>,
     running: Vec<RunInfo>,
     ready_prev: BTreeSet<usize>,
     offered_ever: BTreeSet<usize>,
